@@ -2,6 +2,9 @@ package main
 
 import (
 	"bytes"
+	"strconv"
+
+	"verifsim/idlgen"
 	"fmt"
 	"os"
 	"os/exec"
@@ -122,6 +125,22 @@ func generateIDL(bdir string) (string, error) {
 	os.MkdirAll(gen, 0755)
 	idls, _ := filepath.Glob(filepath.Join(verifDir, "idl", "*.tars"))
 	var entries []string
+	// the seeded IDL family ("programs" quantifier of C01): IDL text and Go glue from idlgen
+	famDir := filepath.Join(bdir, "idl")
+	os.RemoveAll(famDir)
+	os.MkdirAll(famDir, 0755)
+	fam := idlgen.Generate(envSeed(), famSize())
+	imports := "package simgen\n\nimport (\n"
+	for _, m := range fam {
+		f := filepath.Join(famDir, m.Name+".tars")
+		os.WriteFile(f, []byte(m.IDL), 0644)
+		idls = append(idls, f)
+		imports += "\t_ \"verifsim/gen/" + m.Name + "\"\n"
+	}
+	imports += ")\n"
+	impFile := filepath.Join(bdir, "zz_fam_imports.go")
+	os.WriteFile(impFile, []byte(imports), 0644)
+	entries = append(entries, filepath.Join(simDir(), "cmd", "simgen", "zz_fam_imports.go")+"="+impFile)
 	for _, idl := range idls {
 		out, err := runCmd(filepath.Dir(idl), nil, t2g, "-outdir", gen, "-module", "verifsim/gen", filepath.Base(idl))
 		if err != nil {
@@ -139,8 +158,28 @@ func generateIDL(bdir string) (string, error) {
 	if err != nil {
 		return "", err
 	}
+	for _, m := range fam {
+		g := filepath.Join(gen, m.Name, "zz_glue.go")
+		if err := os.WriteFile(g, []byte(m.Glue), 0644); err != nil {
+			return "", fmt.Errorf("tars2go produced no package for family module %s: %v\n%s", m.Name, err, m.IDL)
+		}
+		entries = append(entries, filepath.Join(simDir(), "gen", m.Name, "zz_glue.go")+"="+g)
+	}
 	if len(entries) == 0 {
 		return "", fmt.Errorf("tars2go produced no Go files in %s", gen)
 	}
 	return strings.Join(entries, ","), nil
+}
+
+// famSize is the number of generated IDL modules per build (VERIF_FAMILY overrides).
+func famSize() int {
+	if v := os.Getenv("VERIF_FAMILY"); v != "" {
+		if n, err := strconv.Atoi(v); err == nil && n >= 0 {
+			return n
+		}
+	}
+	if os.Getenv("VERIF_TIER") == "thorough" {
+		return 24
+	}
+	return 8
 }
